@@ -71,6 +71,7 @@ var c03Layouts = []cookieLayout{
 }
 
 func c03Run(c *fw.Ctx) {
+	c.Retries = 2 // socket-based harness: tolerate a transient glitch while replaying a prefix
 	vtime.SetManual(harness.T0)
 	defer vtime.SetReal()
 	variants := c03HeaderVariants(c.Thorough())
